@@ -3,12 +3,14 @@ independent encoder, so the class is known by construction) towards either endpo
 raises at every entry point; a witness stream must complete with all its payloads and a probe request must be served afterwards.
 Clauses C12.* of RSocket.tla; C01.* failures in these families count as C12 ('requests on other streams are still served correctly')."""
 from .. import common
-from . import conn, families, mc, dispatch
+from . import conn, families, mc, dispatch, transportmodel
 
 
 def run(v):
     # Dispatch.tla: every frame kind aimed at every stream state on both endpoints (the table TLC checks for containment, replayed)
     dispatch.check(v, 'C12')
+    # Transport.tla: every short sequence of websocket messages (valid / undecodable / empty / not BINARY) x every ending, on every message transport class
+    transportmodel.check(v, 'C12')
     mc.run_for(v, 'C12')
     scns, res = conn.check(v, 'C12', families.FAMILIES['C12'], extra_clause_props=('C01',))
     classes = {}
